@@ -32,6 +32,15 @@ type c19Key struct{}
 
 type c19Stamp struct{}
 
+type c19SrcKey struct{}
+
+// c19Obs is the observable a pipeline is built over: the scripted source followed by a marker that only
+// the notifications (not the subscriber's context as seen by the chain) carry, so that an instrumentation
+// operator that rebuilds a notification context from the subscription context is noticed.
+func c19Obs(s *Src) ro.Observable[int] {
+	return ro.ContextWithValue[int](c19SrcKey{}, "src")(s.Obs())
+}
+
 type c19Op = func(ro.Observable[int]) ro.Observable[int]
 
 // Stages admitted in C19 chains: synchronous, single-source, state kept per subscription (checked by
@@ -220,7 +229,7 @@ func c19Marks(ctx context.Context) string {
 	if ctx == nil {
 		return "nil-ctx"
 	}
-	return fmt.Sprintf("sub=%v/mid=%v", ctx.Value(c19Key{}), ctx.Value(ctxKey("mid")))
+	return fmt.Sprintf("sub=%v/src=%v/mid=%v", ctx.Value(c19Key{}), ctx.Value(c19SrcKey{}), ctx.Value(ctxKey("mid")))
 }
 
 func c19SameEv(a, b Ev) bool {
@@ -444,7 +453,7 @@ func runC19Pipe(e *Env) {
 	// 1. plain pipeline
 	plain := &c19Pipe{name: "plain", src: e.NewSrc(spec)}
 	{
-		src, ops := plain.src.Obs(), c19BuildOps(e, sc.Stages)
+		src, ops := c19Obs(plain.src), c19BuildOps(e, sc.Stages)
 		switch n {
 		case 1:
 			plain.obs = ro.Pipe1(src, ops[0])
@@ -485,7 +494,7 @@ func runC19Pipe(e *Env) {
 			})
 		}
 		ops := c19BuildOps(e, sc.Stages)
-		cur := tap(0)(probe.src.Obs())
+		cur := tap(0)(c19Obs(probe.src))
 		for k := range ops {
 			cur = tap(k + 1)(ops[k](cur))
 		}
@@ -498,7 +507,7 @@ func runC19Pipe(e *Env) {
 	var collector prometheus.Collector
 	{
 		cfg := roprometheus.CollectorConfig{Namespace: "verif", Subsystem: "c19"}
-		src, ops := instr.src.Obs(), c19BuildOps(e, sc.Stages)
+		src, ops := c19Obs(instr.src), c19BuildOps(e, sc.Stages)
 		switch n {
 		case 1:
 			instr.obs, collector = roprometheus.Pipe1(cfg, src, ops[0])
@@ -647,7 +656,7 @@ func runC19Counters(e *Env) {
 
 	build := func(kind string) *c19Pipe {
 		p := &c19Pipe{name: kind, src: e.NewSrc(spec)}
-		cur := p.src.Obs()
+		cur := c19Obs(p.src)
 		for i, st := range sc.Stages {
 			i := i
 			if !c19IsProm(st.Op) {
